@@ -3,14 +3,18 @@ import re
 
 from . import streams_codec, streams_ugrid
 from . import streams_partmeshb
+from . import streams_formats
 from .common import LEAN
 
 ID = 'C20'
-PROPS_MODULE = ['Refine.Props.C20', 'Refine.Props.C20Ugrid', 'Refine.Props.C20PartMeshb']
+PROPS_MODULE = ['Refine.Props.C20', 'Refine.Props.C20Ugrid', 'Refine.Props.C20PartMeshb', 'Refine.Props.C20Formats']
 STREAMS = [streams_codec.C20_MESHB, streams_codec.C20_SOLB, streams_codec.C20_ROBUST,
            streams_codec.C20_HANG, streams_codec.C20_INDEX, streams_codec.C20_COUNT, streams_codec.C20_NAMES,
            streams_ugrid.C20_MUT, streams_ugrid.C20_ROBUST, streams_ugrid.C20_INDEX, streams_ugrid.C20_COUNT,
-           streams_ugrid.C20_SWEEP, streams_partmeshb.C20, streams_partmeshb.READ]
+           streams_ugrid.C20_SWEEP, streams_partmeshb.C20, streams_partmeshb.READ,
+           streams_formats.C20_MUT, streams_formats.C20_ROBUST, streams_formats.C20_FIELDS, streams_formats.MAPBC,
+           streams_formats.C20_INDEX, streams_formats.C20_TOKEN, streams_formats.C20_PREALLOC, streams_formats.C20_R8,
+           streams_formats.C20_RST, streams_formats.C20_SNAP, streams_formats.C20_PLT, streams_formats.C08_SU2_NOBND]
 EXPLANATION = (
     'Obligations on the reader models (Refine/Props/C20.lean): totality; accepted_counts_fit; header_progress + '
     'header_scan_returns (every hop of the keyword scan moves strictly forward, so the scan returns on every byte '
@@ -65,6 +69,7 @@ EXPLANATION = (
     'routing the driver executes, on every input).  Tie: streams partmeshb_c20 (np 1,2,3: index 0, -1, nnode+1, nnode+2, '
     '2^31-1, 2^32+1 in first / later position of tet / tri / edge records, counts, truncation, dimension / version / '
     'next-position substitutions, bit flips; C status and, when accepted, the per-rank dump == model) and partmeshb_read '
+<<<<<<< HEAD
     '(np 1..5, valid files).  Declared counts (reader of /repo since 4474557, ref_part_meshb_count_fits modelled as '
     'countFits right after the count is read, on rank 0): partCell_count_fits (accepted => every declared cell / '
     'geometry count is in [0, INT_MAX] and <= bytes left / 4), partCell_loop_progress (chunk >= 1, section_size >= 1 '
@@ -75,9 +80,41 @@ EXPLANATION = (
     'findings/partmeshb-count-int-overflow, the reader of today refuses them with REF_FAILURE on 1, 2, 3 ranks; '
     'the stream generates counts 2^31-1, 2^32, 2^32+k, -1, one above what the file holds at np 1,2,3 and replays '
     'the four witness files.')
+=======
+    '(np 1..5, valid files).  The two *_counterexample theorems of that file are Lean witnesses of findings/partmeshb-'
+    'count-2pow32-hang and findings/partmeshb-count-int-overflow (declared counts are trusted to size the read buffers).  '
+    'TEXT MESH READERS, .r8.ugrid, FIELD READERS, MAPBC (work package formats; Refine/Model/Formats.lean, FormatsBin.lean, '
+    'FormatsMapbc.lean, Props/C20Formats.lean; harness h_formats = every call in a forked child with alarm, allocator cap and '
+    'peak-RSS check; driver formats): the validation logic of ref_import_ugrid (ASCII), _tri, _surf, _fgrid, _su2, _msh, '
+    '_i_like_cfd_grid at TOKEN level (what one fscanf("%d" | "%lf" | "%s") or one fgets + sscanf consumes; a number is the '
+    'bit pattern strtod returns, the harness writes %.17g), of ref_import_r8_ugrid, ref_part_scalar_rst / _snap / _plt at byte '
+    'level, and of ref_phys_read_mapbc / _mapbc_token.  Proved: *_decode_total; ASCII .ugrid (index test in /repo since 6682479): '
+    'ugrid_accepted_counts_fit (the accepted mesh has exactly the declared numbers of vertices and cells, each converted by a '
+    'checked fscanf) and ugrid_accepted_indices_in_range at full strength; mapbc_accepted_counts_fit, mapbc_no_hazard (5000-'
+    'character names, counts of 2^31-1 or 10^10, missing lines: REF_FAILURE or outside the token abstraction, never a hazard), '
+    'mapbc_walls_spec (the wall set C12 measures from = the ids whose last line carries a viscous code).  The other readers '
+    'FAIL the obligations on the faithful model; Lean proves the negation on concrete small files (*_counterexample, the same '
+    'tokens / bytes are replayed against the real readers by the c20_formats_* / c20_fields_* streams and end in a sanitizer '
+    'abort, a timeout or > 300 MB touched) and proves the obligation for the variant with the proposed repair '
+    '(findings/<site>/proposed.patch; Fix / BFix flags of the models; the repaired C and the Fix.all / BFix.all models agree on '
+    '2282 generated ops): tri/fgrid/surf/r8_fixed_accepted_indices_in_range, msh_fixed_token_safe, '
+    'rst_fixed_accepted_counts_fit, snap_fixed_fields_fit.  KNOWN FINDINGS (sites): import-vertex-index-unchecked (.tri .fgrid '
+    '.surf .su2 .msh .grid .r8.ugrid .node accept any vertex index; `translate` SEGV), msh-token-buffer-overflow (fscanf "%s" '
+    'into line[1024]), tri-fgrid-vertices-allocated-before-read, r8-ugrid-record-size-overflow, rst-header-counts-trusted '
+    '(800 MB from a 36-byte file, int overflows, 8.6e9 idle iterations), snap-field-count-trusted, plt-zone-size-trusted, '
+    'su2-export-no-marker-overflow (translate of a .su2 without markers).  Tie: c20_formats_mut (token deletion / duplication, '
+    'counts := {-1,0,1,n+1,2^31-1,2^31,10^10}, indices := {0,-1,n+1,n+2,2^31-1,-2^31,..}, wrong element types, NaN / inf / 1e999 / '
+    'hex-float / words for numbers, 5000-character pieces, 30-digit integers, truncation with and without final newline, CR LF; '
+    'C status and dump == model wherever the model gives a status), c20_formats_robust (the same mutants through '
+    'ref_import_by_extension and import + export), c20_fields_mut (.rst / .snap / .plt header fields := {-1,0,1,2^30,2^31-1,10^8,'
+    '2^63-1,..}, truncation, bit flips; values of accepted files == independent parse), formats_mapbc.')
+>>>>>>> 903a9571bea64b740ec2931dc69ac296b24f5884
 ASSUMPTIONS = [
-    'the binary libMeshb readers (.meshb, .solb scalar and metric) and the binary UGRID readers (serial, parallel at one '
-    'rank) are modelled; ascii ugrid, r8.ugrid, mapbc, text formats are not; file-name handling of *_by_extension is '
+    'the binary libMeshb readers (.meshb, .solb scalar and metric), the binary UGRID readers (serial, parallel at one '
+    'rank), the text mesh readers (.ugrid .tri .surf .fgrid .su2 .msh .grid), .r8.ugrid, .rst / .snap / .plt and .mapbc are '
+    'modelled; NOT modelled: .avm (ref_part_avm), tetgen .node/.face, .restart_sol, .csv, the usm3d mapbc reader '
+    '(ref_inflate_read_usm3d_mapbc: fgets(1024) + sscanf "%s" into a 1024-byte buffer, read only), .plt VALUES (placed by a '
+    'nearest-vertex search: only header / zone validation and ldim are modelled); file-name handling of *_by_extension is '
     'exercised (c20_names) but not modelled; a malformed file at np >= 2 (rank 0 returns an error while the other ranks '
     'wait for its scatter) is not exercised',
     'malloc above 1 GiB returns NULL (harness: ASan allocator cap; model: Cfg.allocCap); ref_adj growth is '
@@ -97,7 +134,22 @@ ASSUMPTIONS = [
     'inside ref_part_meshb, is outside the model (the harness dumps the state just before it, by interposing that one '
     'call in the white-box include of ref_part.c)',
 ]
-TRUSTED = ['harness/h_codec.c child isolation (fork, alarm, wait4 peak RSS)', 'checks/meshio_ref.py mutant factory']
+ASSUMPTIONS += [
+    'text formats (package formats): a file is a list of pieces (tokens); the decimal conversion of the C library is not modelled: '
+    'the harness writes a number with %.17g / as an integer and the model carries the value; inputs that leave the abstraction '
+    '(%d applied to a %.17g text, a number-like word under %lf, a lone sign, more than 18 digits, an fgets line that may exceed '
+    '1000 characters, a second vertex block, SU2 lines naming two keywords) are answered `unmodelled` by the model: the exact-'
+    'status stream skips them, the robustness stream still runs them; integers beyond int are what glibc stores (the long '
+    'truncated); `bloat` = more than 300 MB touched (model: a count-sized allocation that is initialised, or more than 10^6 '
+    'declared vertices in .tri / .fgrid), `hang` = more than 10^7 iterations decided by the header alone; the generators keep '
+    'away from the thresholds by a factor >= 2.5',
+    'finding streams (c20_formats_index / _token / _prealloc / _r8, c20_fields_rst / _snap / _plt, formats_su2_nomarker): ops '
+    '`hazard*` are answered `hazard` | `clean` by harness (child crashed / timed out / bloated) and model (prediction ub / hang / '
+    'bloat, or an accepted vertex index >= 10^6 for translate); the oracle flags every `hazard` and every accepted out-of-range '
+    'index with the site of the finding, so the runs end with KNOWN-FINDING lines until /repo is repaired',
+]
+TRUSTED = ['harness/h_codec.c child isolation (fork, alarm, wait4 peak RSS)', 'checks/meshio_ref.py mutant factory',
+           'harness/h_formats.c child isolation and token writer', 'checks/streams_formats.py independent writers / parsers']
 
 
 def WITNESS(ctx, a):
@@ -118,4 +170,13 @@ def _witnesses_in_sync():
         raise RuntimeError('witness bytes of checks/streams_ugrid.py not found in Props/C20Ugrid.lean: %s' % missing)
 
 
+def _formats_witnesses_in_sync():
+    text = open(os.path.join(LEAN, 'Refine', 'Props', 'C20Formats.lean')).read()
+    missing = [k for k, v in streams_formats.lean_witness_text().items()
+               if ':= ' + v not in text and k not in ('tri_index_far', 'fgrid_index_far', 'su2_index_far', 'r8_index_far')]
+    if missing:
+        raise RuntimeError('witnesses of checks/streams_formats.py not found in Props/C20Formats.lean: %s' % missing)
+
+
 _witnesses_in_sync()
+_formats_witnesses_in_sync()
